@@ -9,14 +9,17 @@ form), JSON texts it READS travel as the hex of their UTF-8 bytes.
 
 * `c19_json <tx|block|prefix> <consensus hex>` → `<to_string text> rt=<eq|ne|err>` | `err` (bytes not strictly decodable);
   `rt` = `from_str` of that text compared with the value
-* `c19_json hash <32 bytes>` / `hash8 <8 bytes>` / `index <major> <minor>` / `varint <n>` / `rcttype <0..6>`
-* `c19_de <tx|block|prefix|txin|txout|ecdh|key|hash|hash8|index|varint|rcttype|rctsig> <json hex>` → `ok <to_string of the value read>` | `err`
+* `c19_json hash <32 bytes>` / `hash8 <8 bytes>` / `index <major> <minor>` / `varint <n>` / `rcttype <0..6>` /
+  `extra <sub-field tokens>` (an `ExtraField`; tokens `P:<key>` `N:<bytes>` `D:<u8>` `M:<depth>:<hash>` `A:<key>,…` `G:<bytes>` joined by `;`, `-` = none)
+* `c19_json_rd <tx|block|prefix|extra> …` → `<to_string text> rd=<…> val=<…> slice=<…>`: `from_reader`, `to_value`→`from_value`, `from_slice`
+* `c19_de <tx|block|prefix|txin|txout|ecdh|key|hash|hash8|index|varint|rcttype|rctsig|extra|subfield|pubkey|key64|rangesig|header|base|prunable|sig|ctkey|bp|bpp|mg|clsag> <json hex>` → `ok <to_string of the value read>` | `err`
 * `c19_amount <as_pico|as_xmr> <plain|opt|vec> <u|s> <values…>` (`none` for an absent option) → `<text> rt=<eq|ne|err>`
 * `c19_amount_de <as_pico|as_xmr> <plain|opt|vec> <u|s> <json hex>` → `ok <values…>` | `err`
 * `c19_amount_rd …` the same through a non-borrowing deserialiser (`from_reader`); spec side = what reading the same
   document as plain owned strings gives (the property asks sequences to read back like single amounts)
 * `c19_addr <address text hex>` → `<text> rt=<eq|ne|err>` | `err`;  `c19_addr_de <json hex>` → `ok <address text hex>` | `err`
-Model side = `Model/Json.lean`; no spec side (`-`) except for `c19_amount_rd`. -/
+Model side = `Model/Json.lean`. Spec side: `c19_amount` (`specAmount`, the by-convention text with `Spec.Decimal.specFormat`) and
+`c19_amount_de` / `c19_amount_rd` (`specAmtDoc`: `Spec.Decimal.specParse 12` / integer ranges, no reader of `Model/Json`); `-` elsewhere. -/
 
 deriving instance DecidableEq for Monero.TxIn
 deriving instance DecidableEq for Monero.Target
@@ -50,6 +53,30 @@ def showDe {α} (toJ : α → Json) (fromJ : Json → Option α) (b : Bytes) : S
   | none => "err"
   | some j => match fromJ j with | none => "err" | some y => "ok " ++ text (render (toJ y))
 
+/-- `… rd=<from_reader> val=<to_value → from_value> slice=<from_slice>`: the non-borrowing entry points see every string
+as owned (`Json.owned`); `from_value` works on the tree, without the printer / parser -/
+def withRd {α} [DecidableEq α] (x : α) (toJ : α → Json) (fromJ : Json → Option α) : String :=
+  let t := render (toJ x)
+  let cmp (o : Option α) : String := match o with | none => "err" | some y => if y = x then "eq" else "ne"
+  let rd := cmp ((parse t).bind fun j => fromJ (owned 1000 j))
+  let val := cmp (fromJ (owned 1000 (toJ x)))
+  let sl := cmp ((parse t).bind fromJ)
+  s!"{text t} rd={rd} val={val} slice={sl}"
+
+/-- `SubField` tokens, see harness/src/c19.rs `subs_of`; `none` if a token is not a value of the Rust type -/
+def parseSub (t : String) : Option Extra.SubField :=
+  let key (h : String) : Option Bytes := let b := Hex.decode h; if b.length = 32 ∧ h.length = 64 then some b else none
+  match t.splitOn ":" with
+  | ["P", h] => (key h).map .txPub
+  | ["N", h] => some (.nonce (Hex.decode h))
+  | ["D", n] => n.toNat?.bind fun n => if n < 256 then some (.padding n) else none
+  | ["M", n, h] => n.toNat?.bind fun d => if d < 2^64 then (key h).map (.mergeMining d) else none
+  | ["A", hs] => if hs = "" then some (.addKeys []) else ((hs.splitOn ",").mapM key).map .addKeys
+  | ["G", h] => some (.minerGate (Hex.decode h))
+  | _ => none
+def parseSubs (t : String) : Option (List Extra.SubField) :=
+  if t = "-" then some [] else (t.splitOn ";").mapM parseSub
+
 /-- by-the-convention rendering of the documented wrappers, written independently of Model/Json.lean: piconero as a JSON
 integer, monero as the exact 12-decimal string of Spec.Decimal; `null` for an absent option; reading back succeeds iff
 every monero string is within the parsing limit |a| <= 2^63 - 1 -/
@@ -80,6 +107,40 @@ def vecAsPlain (signed : Bool) (e : AmtEnc) (j : Json) : Option (List Int) :=
   | some [none] => some []
   | some [some (.arr xs)] => mapOpt (amtFromJson signed e) xs
   | _ => none
+
+/-! ### specification side of the amount READERS, written without any reader of `Model/Json.lean` and without the C15 model:
+one amount is a JSON integer in the range of the Rust type (`as_pico`) or a JSON string — escaped or not — that
+`Spec.Decimal.specParse` for twelve decimals accepts (`as_xmr`); the wrapper struct is an object with the field once
+(absent: an error, or the default for the `opt` / `vec` wrappers) or its one-element positional form. -/
+def specAmtRead (signed xmr : Bool) : Json → Option Int
+  | .num n => if xmr then none else if inRange signed n then some n else none
+  | .str s => if xmr then Spec.Decimal.specParse signed 12 s else none
+  | .strEsc s => if xmr then Spec.Decimal.specParse signed 12 s else none
+  | _ => none
+/-- `none` = malformed, `some none` = field absent, `some (some v)` = field given once -/
+def specField (name : String) : Json → Option (Option Json)
+  | .obj kvs => match kvs.filter (fun kv => kv.1 == name) with | [] => some none | [kv] => some (some kv.2) | _ => none
+  | .arr [] => some none
+  | .arr [v] => some (some v)
+  | _ => none
+def specAll (signed xmr : Bool) : List Json → Option (List Int)
+  | [] => some []
+  | x :: xs => match specAmtRead signed xmr x, specAll signed xmr xs with | some a, some r => some (a :: r) | _, _ => none
+def specAmtDoc (signed xmr : Bool) (shape : String) (j : Option Json) : Option String :=
+  match shape with
+  | "plain" => some (match j.bind (specField "amount") with
+      | some (some v) => (match specAmtRead signed xmr v with | some a => s!"ok {a}" | none => "err")
+      | _ => "err")
+  | "opt" => some (match j.bind (specField "amount") with
+      | some none => "ok none"
+      | some (some .null) => "ok none"
+      | some (some v) => (match specAmtRead signed xmr v with | some a => s!"ok {a}" | none => "err")
+      | none => "err")
+  | "vec" => some (match j.bind (specField "amounts") with
+      | some none => "ok"
+      | some (some (.arr xs)) => (match specAll signed xmr xs with | some vs => showVals vs | none => "err")
+      | _ => "err")
+  | _ => none
 end C19
 
 open C19 in
@@ -106,6 +167,16 @@ def stepC19 : Step := fun toks =>
   | ["c19_json", "rcttype", a] => do
     let a ← a.toNat?
     pure (withRt a rctTypeJ rctTypeFromJson, "-")
+  | ["c19_json", "extra", t] =>
+    some ((match parseSubs t with | some fs => withRt fs extraFieldJ extraFieldFromJson | none => "err"), "-")
+  | ["c19_json_rd", "tx", h] =>
+    some ((match tx (Hex.decode h) with | some (t, []) => withRd t txJ txFromJson | _ => "err"), "-")
+  | ["c19_json_rd", "block", h] =>
+    some ((match block (Hex.decode h) with | some (t, []) => withRd t blockJ blockFromJson | _ => "err"), "-")
+  | ["c19_json_rd", "prefix", h] =>
+    some ((match prefix' (Hex.decode h) with | some (t, []) => withRd t prefixJ prefixFromJson | _ => "err"), "-")
+  | ["c19_json_rd", "extra", t] =>
+    some ((match parseSubs t with | some fs => withRd fs extraFieldJ extraFieldFromJson | none => "err"), "-")
   | ["c19_de", ty, h] =>
     let b := Hex.decode h
     let r : Option String :=
@@ -123,6 +194,20 @@ def stepC19 : Step := fun toks =>
       | "varint" => some (showDe natJ (readUInt U64) b)
       | "rcttype" => some (showDe rctTypeJ rctTypeFromJson b)
       | "rctsig" => some (showDe (fun (x : Option Base × Option Prunable) => rctSigJ x.1 x.2) rctSigFromJson b)
+      | "extra" => some (showDe extraFieldJ extraFieldFromJson b)
+      | "subfield" => some (showDe subFieldJ subFieldFromJson b)
+      | "pubkey" => some (showDe publicKeyJ publicKeyFromJson b)
+      | "key64" => some (showDe key64J key64FromJson b)
+      | "rangesig" => some (showDe rangeSigJ rangeSigFromJson b)
+      | "header" => some (showDe headerJ headerFromJson b)
+      | "base" => some (showDe baseJ baseFromJson b)
+      | "prunable" => some (showDe prunableJ prunableFromJson b)
+      | "sig" => some (showDe sigJ sigFromJson b)
+      | "ctkey" => some (showDe ctKeyJ ctKeyFromJson b)
+      | "bp" => some (showDe bpJ bpFromJson b)
+      | "bpp" => some (showDe bppJ bppFromJson b)
+      | "mg" => some (showDe mgJ mgFromJson b)
+      | "clsag" => some (showDe clsagJ clsagFromJson b)
       | _ => none
     r.map fun m => (m, "-")
   | "c19_amount" :: enc :: shape :: ty :: vals => do
@@ -144,14 +229,15 @@ def stepC19 : Step := fun toks =>
     | _, _ => none
   | ["c19_amount_de", enc, shape, ty, h] => do
     let e ← encOfStr enc; let signed ← signedOfStr ty
-    let m ← showAmtDe e shape signed (parse (Hex.decode h))
-    pure (m, "-")
+    let j := parse (Hex.decode h)
+    let m ← showAmtDe e shape signed j
+    let s ← specAmtDoc signed (enc == "as_xmr") shape j
+    pure (m, s)
   | ["c19_amount_rd", enc, shape, ty, h] => do
     let e ← encOfStr enc; let signed ← signedOfStr ty
     let j := parse (Hex.decode h)
     let m ← showAmtDe e shape signed (j.map (owned 1000))
-    let s ← if shape = "vec" then some (match j.bind (vecAsPlain signed e) with | none => "err" | some vs => showVals vs)
-            else showAmtDe e shape signed j
+    let s ← specAmtDoc signed (enc == "as_xmr") shape j
     pure (m, s)
   | ["c19_addr", h] =>
     some ((match Address.fromStr C12.H C12.validKey (Hex.decode h) with
